@@ -691,6 +691,9 @@ func c15SweepCases(thorough bool) []fCase {
 	for _, cc := range c15CellsNoArg() {
 		push("fmt", cc.cell, cc.ctrl, cc.args, cc.noErr)
 	}
+	for _, cc := range c15CellsChars() {
+		push("fmt", cc.cell, cc.ctrl, cc.args, cc.noErr)
+	}
 	// ~R spelling against the independent Go oracle (the model reads the same tables as the code)
 	for _, n := range c15EnglishValues(thorough) {
 		if w, ok := c15OracleCardinal(n); ok {
